@@ -7,6 +7,7 @@ package tsdbsim
 import (
 	"encoding/json"
 	"fmt"
+	"os"
 
 	"verif/sim/core/prng"
 	"verif/sim/model/histgen"
@@ -46,7 +47,7 @@ type Config struct {
 
 	// KF: this run deliberately exercises the input patterns of listed known findings (see known_findings.json);
 	// all other runs avoid them so that they keep exploring past those patterns.
-	KF bool `json:"kf,omitempty"`
+	KF string `json:"kf,omitempty"` // tag of the one finding this run is allowed to trigger ("" = none)
 
 	Crash     bool `json:"crash,omitempty"`     // take crash images at IO hooks and judge them (C03)
 	ImgCap    int  `json:"imgcap,omitempty"`    // max images judged per op
@@ -141,7 +142,16 @@ func GenConfig(prop, tier string, seed uint64) Config {
 	if r.Chance(0.25) {
 		c.ReplayConc = r.Range(2, 4)
 	}
-	c.KF = r.Chance(0.04)
+	kfTags := []string{"wal-sample-before-series-record", "delete-misses-ooo-head", "head-tombstone-hides-later-append",
+		"ooo-mmap-chunks-dropped-on-duplicate-series-record", "restart-drops-head-samples-below-merged-ooo-block-maxt",
+		"ooo-chunk-ref-reuse-after-all-head-chunk-files-deleted", "inorder-sample-lost-at-replay-after-newer-ooo-sample"}
+	kfPick := kfTags[r.Intn(len(kfTags))]
+	if r.Chance(0.05) || os.Getenv("VERIF_FORCE_KF") != "" { // the env var is a finding-hunting aid; replay files carry the plan
+		c.KF = kfPick
+		if f := os.Getenv("VERIF_FORCE_KF"); f != "" && f != "1" {
+			c.KF = f
+		}
+	}
 	switch prop {
 	case "C03":
 		c.Crash = true
